@@ -29,7 +29,8 @@ import (
 const (
 	K        = 13     // solo bound (C02)
 	soloCap  = 10 * K // a thread not returning within 10·K own steps is reported as spinning
-	drainCap = 400
+	drainCap = 5000
+	maxChain = 4096 // bound of the list walk (a mutant may create a cycle)
 )
 
 type opK struct {
@@ -113,7 +114,7 @@ func loadNext(node unsafe.Pointer) unsafe.Pointer {
 // refresh walks the list from the initial dummy and numbers unseen nodes in link order.
 func (r *runner) refresh() []unsafe.Pointer {
 	var chain []unsafe.Pointer
-	for n, k := r.dummy, 0; n != nil && k < 64; n, k = loadNext(n), k+1 {
+	for n, k := r.dummy, 0; n != nil && k < maxChain; n, k = loadNext(n), k+1 {
 		if _, ok := r.ids[n]; !ok {
 			r.ids[n] = len(r.ids)
 		}
@@ -576,6 +577,259 @@ func schedStr(sched []int) string {
 	return strings.Join(ws, " ")
 }
 
+
+// ---------------------------------------------------------------- structured schedule classes
+
+// rec performs one schedule entry and records it.
+func (r *runner) rec(t int, sched *[]int) {
+	*sched = append(*sched, t)
+	r.step(t)
+}
+
+// completeOp lets thread t finish its current operation, or invoke and finish its next one, running alone.
+func (r *runner) completeOp(t int, sched *[]int) bool {
+	if !r.live(t) {
+		return false
+	}
+	r.rec(t, sched)
+	for k := 0; k < 4*K && r.busy(t); k++ {
+		r.rec(t, sched)
+	}
+	return !r.busy(t)
+}
+
+// pendingCas reports whether thread t is parked before a CAS on the given class of cell ("next", "head", "tail").
+func (r *runner) pendingCas(t int, class string) bool {
+	if !r.busy(t) {
+		return false
+	}
+	pe := r.s.Pending(t)
+	if pe.Site != loom.VerifQueueCas {
+		return false
+	}
+	loc := r.loc(pe.Ptr)
+	switch class {
+	case "head", "tail":
+		return loc == class
+	}
+	return loc != "head" && loc != "tail"
+}
+
+// runUntil steps thread t (at most max steps) until pred holds; false if the thread left its operation first.
+func (r *runner) runUntil(t int, sched *[]int, max int, pred func() bool) bool {
+	for k := 0; k < max; k++ {
+		if pred() {
+			return true
+		}
+		if !r.live(t) {
+			return false
+		}
+		wasBusy := r.busy(t)
+		r.rec(t, sched)
+		if wasBusy && !r.busy(t) {
+			return pred()
+		}
+	}
+	return pred()
+}
+
+func pairs(n int, v *int) []opK {
+	var ops []opK
+	for i := 0; i < n; i++ {
+		*v++
+		ops = append(ops, opK{push: true, v: *v}, opK{})
+	}
+	return ops
+}
+
+func pushes(n int, v *int) []opK {
+	var ops []opK
+	for i := 0; i < n; i++ {
+		*v++
+		ops = append(ops, opK{push: true, v: *v})
+	}
+	return ops
+}
+
+func pops(n int) []opK { return make([]opK, n) }
+
+// longStall: LONG-STALL schedules. A victim operation (thread 0) is run up to its j-th shared access and
+// suspended there; the other threads complete `prefix` operations before and n operations while it is
+// suspended (solo bursts in random order, or a random step-level interleaving); then the victim resumes
+// (the drain runs the lowest live thread first). Everything that relies on "nothing relevant can have
+// happened while I was not looking" (reuse of nodes, ABA) needs this class.
+func longStall(c *hx.Ctx, victimPush bool, j, n, shape, prefix int, interleave bool) {
+	v := 99
+	var prog [][]opK
+	if victimPush {
+		prog = append(prog, []opK{{push: true, v: 1}})
+	} else {
+		prog = append(prog, []opK{{}})
+	}
+	m := n/2 + 8
+	switch shape {
+	case 0:
+		prog = append(prog, pairs(m, &v))
+	case 1:
+		prog = append(prog, pairs(m, &v), pops(n/4+2))
+	case 2:
+		prog = append(prog, pairs(m, &v), pairs(m, &v))
+	default:
+		prog = append(prog, pushes(m, &v), pops(m))
+	}
+	r := newRunner(prog)
+	var sched []int
+	others := len(prog) - 1
+	for i := 0; i < prefix; i++ {
+		r.completeOp(1+i%others, &sched)
+	}
+	r.rec(0, &sched) // the victim's invocation
+	for k := 0; k < j && r.busy(0); k++ {
+		r.rec(0, &sched)
+	}
+	done := 0
+	for guard := 0; done < n && guard < 40*n; guard++ {
+		var lv []int
+		for t := 1; t < len(prog); t++ {
+			if r.live(t) {
+				lv = append(lv, t)
+			}
+		}
+		if len(lv) == 0 {
+			break
+		}
+		t := c.Rng.Pick(lv)
+		if interleave {
+			wasBusy := r.busy(t)
+			r.rec(t, &sched)
+			if wasBusy && !r.busy(t) {
+				done++
+			}
+		} else if r.completeOp(t, &sched) {
+			done++
+		}
+	}
+	r.drain(false)
+	c.Emit("prog %s | sched %s", showProg(prog), schedStr(sched))
+	c.Count("long_stall")
+	switch {
+	case n < 80:
+		c.Count("long_stall_ops_lt80")
+	case n < 130:
+		c.Count("long_stall_ops_80_129")
+	default:
+		c.Count("long_stall_ops_ge130")
+	}
+}
+
+func genLongStall(c *hx.Ctx) {
+	ns := []int{60, 100, 150}
+	for _, push := range []bool{false, true} {
+		for j := 0; j <= 5; j++ {
+			if !push && j == 5 {
+				continue
+			}
+			for _, n := range ns {
+				for shape := 0; shape < 4; shape++ {
+					longStall(c, push, j, n, shape, c.Rng.Range(0, 3), false)
+				}
+			}
+		}
+	}
+	extra := c.Budget(60, 1500)
+	for i := 0; i < extra; i++ {
+		n := c.Rng.Pick(ns)
+		if c.Thorough() && c.Rng.Intn(4) == 0 {
+			n = c.Rng.Range(40, 260)
+		}
+		longStall(c, c.Rng.Bool(), c.Rng.Range(0, 5), n, c.Rng.Intn(4), c.Rng.Range(0, 5), c.Rng.Intn(3) == 0)
+	}
+}
+
+// starvePush: STARVATION schedules for Push. The victim (thread 0) is brought in front of its link CAS and
+// loses it k times in a row, each time to a different Push of the adversaries, which complete — except the
+// last one, which is suspended between its link CAS and its tail CAS. Then the victim runs solo.
+func starvePush(c *hx.Ctx, k, adversaries int, parkLast bool) {
+	v := 1
+	prog := [][]opK{{{push: true, v: 1}}}
+	for a := 0; a < adversaries; a++ {
+		prog = append(prog, pushes((k+adversaries-1)/adversaries, &v))
+	}
+	r := newRunner(prog)
+	var sched []int
+	atLink := func() bool { return r.pendingCas(0, "next") }
+	ok := r.runUntil(0, &sched, 3*K, atLink)
+	for i := 0; ok && i < k; i++ {
+		a := 1 + i%adversaries
+		if i == k-1 && parkLast {
+			ok = r.runUntil(a, &sched, 3*K, func() bool { return r.linked[a] && r.pendingCas(a, "tail") })
+		} else {
+			ok = r.completeOp(a, &sched)
+		}
+		if i < k-1 && ok {
+			r.rec(0, &sched) // the victim loses the link CAS
+			ok = r.runUntil(0, &sched, 3*K, atLink)
+		}
+	}
+	busy := r.busy(0)
+	r.drain(false)
+	if !busy {
+		return
+	}
+	c.Emit("prog %s | sched %s | solo 0", showProg(prog), schedStr(sched))
+	c.Count("starve_push")
+}
+
+// starvePop: the same for Pop and the head CAS; the queue is pre-filled by thread 1, the adversary Pops
+// complete; optionally a pusher is left suspended between its two CASes (lagging tail).
+func starvePop(c *hx.Ctx, k, adversaries int, lagging bool) {
+	v := 1
+	prog := [][]opK{{{}}, pushes(k+3, &v)}
+	for a := 0; a < adversaries; a++ {
+		prog = append(prog, pops((k+adversaries-1)/adversaries))
+	}
+	r := newRunner(prog)
+	var sched []int
+	ok := true
+	for i := 0; ok && i < k+2; i++ {
+		ok = r.completeOp(1, &sched)
+	}
+	if ok && lagging {
+		ok = r.runUntil(1, &sched, 3*K, func() bool { return r.linked[1] && r.pendingCas(1, "tail") })
+	}
+	atHead := func() bool { return r.pendingCas(0, "head") }
+	ok = ok && r.runUntil(0, &sched, 3*K, atHead)
+	for i := 0; ok && i < k; i++ {
+		ok = r.completeOp(2+i%adversaries, &sched)
+		if i < k-1 && ok {
+			r.rec(0, &sched) // the victim loses the head CAS
+			ok = r.runUntil(0, &sched, 3*K, atHead)
+		}
+	}
+	busy := r.busy(0)
+	r.drain(false)
+	if !busy {
+		return
+	}
+	c.Emit("prog %s | sched %s | solo 0", showProg(prog), schedStr(sched))
+	c.Count("starve_pop")
+}
+
+func genStarvation(c *hx.Ctx) {
+	ks := []int{1, 2, 3, 4, 5, 6, 7, 8, 9, 10, 11, 12, 16, 20}
+	if c.Thorough() {
+		ks = append(ks, 24, 32, 48, 64)
+	}
+	for _, k := range ks {
+		for adv := 1; adv <= 3; adv++ {
+			for _, b := range []bool{true, false} {
+				starvePush(c, k, adv, b)
+				starvePop(c, k, adv, b)
+			}
+		}
+	}
+}
+
 var quickConfigs = []string{
 	"0:push1,pop 1:push2,pop",
 	"0:push1,push2 1:pop,pop",
@@ -603,6 +857,7 @@ func GenC01(c *hx.Ctx) {
 			explore(c, "c01", 1, cfg)
 		}
 	}
+	genLongStall(c)
 	n := c.Budget(3000, 50000)
 	for i := 0; i < n; i++ {
 		prog := randProg(c, 12)
@@ -628,6 +883,7 @@ func GenC02(c *hx.Ctx) {
 			explore(c, "c02", stride, cfg)
 		}
 	}
+	genStarvation(c)
 	n := c.Budget(3000, 50000)
 	for i := 0; i < n; i++ {
 		prog := randProg(c, 12)
